@@ -58,4 +58,24 @@ theorem C14_interleaving (cc : CharClasses) (σ : List (Nat × Call)) (t : Nat) 
     · simp only [hp, Bool.false_eq_true, if_false] at ih ⊢
       exact ih
 
+/-- replacing the shared interpreter by a fresh one at any point of a session changes no answer:
+a session is the concatenation of the sessions of its two halves -/
+theorem C14_fresh_at_any_point (cc : CharClasses) (a b : List Call) :
+    session cc (a ++ b) = session cc a ++ session cc b := by
+  simp [session]
+
+/-- repeating a call any number of times gives the same answer every time (no warm-up, no cache effect) -/
+theorem C14_repeat (cc : CharClasses) (c : Call) (n : Nat) :
+    session cc (List.replicate n c) = List.replicate n (answer cc c) := by
+  simp [session]
+
+/-- the i-th answer of a session is the answer of the i-th call alone -/
+theorem C14_pointwise (cc : CharClasses) (calls : List Call) (i : Nat) :
+    (session cc calls)[i]? = (calls[i]?).map (answer cc) := by
+  simp [session]
+
+/-- reordering the calls reorders the answers the same way and changes none of them -/
+theorem C14_reorder (cc : CharClasses) (a b : List Call) (h : a.Perm b) :
+    (session cc a).Perm (session cc b) := h.map _
+
 end T2N.C14
